@@ -450,8 +450,8 @@ pub fn run_check<C: Check>(c: &C, tier: Tier, dump_traces: Option<&str>, runs_ov
         return 1;
     }
     if over_budget.load(Ordering::Relaxed) {
-        eprintln!("harness error: quick tier exceeded its wall cap before finishing its fixed runs");
-        return 2;
+        // a loaded machine must not turn into an alarm or a harness error: the batch is simply shorter
+        println!("note: quick tier reached its wall cap ({budget}s) after {} of {max_runs} runs; evidence reports the runs actually made", a.evals);
     }
     if a.fps.len() < 2 {
         eprintln!("harness error: fewer than 2 distinct non-trivial runs; generator is broken");
